@@ -39,7 +39,7 @@ SHARDS = {"quick": 8, "thorough": 16}
 RULE = (
     "all claim trees (object/list containers, 1 entry or 2 entries with one leaf sibling, key classes S/S'/N/N') of "
     "container depth <=3 (quick) / <=4 (thorough) x every sensitive word of the statement's list x spelling variant "
-    "{lower,UPPER,Title,alternating,substring} x leaf kind {str,int}; plus every tree x {raising redactors}; each one "
+    "{lower,UPPER,Title,alternating,substring} x leaf kind {str,int} (quick: int leaves only with the lower spelling); plus every tree x {raising redactors}; each one "
     "real authenticated HTTP call; non-trivial = record carried a claims object (or redactor was invoked), classed by "
     "depth of the deepest sensitive key and the container kinds above it"
 )
@@ -322,13 +322,15 @@ def judge(ctx: Ctx, rig: Rig, case: dict[str, Any]) -> None:
     )
 
 
-def shape_cases(shape: Any) -> Iterator[dict[str, Any]]:
+def shape_cases(shape: Any, quick: bool = False) -> Iterator[dict[str, Any]]:
     if has_s(shape):
         for word in WORDS:
             for variant in VARIANTS:
                 if spell(word, variant) is None:
                     continue
                 for leaf in ("str", "int"):
+                    if quick and leaf == "int" and variant != "lower":
+                        continue  # quick tier: integer leaves only with the plain spelling
                     yield {"shape": shape, "word": word, "variant": variant, "leaf": leaf, "redactor": "default"}
     else:
         yield {"shape": shape, "word": "email", "variant": "lower", "leaf": "mixed", "redactor": "default"}
@@ -345,7 +347,7 @@ def run(ctx: Ctx) -> None:
             if not ctx.mine():
                 continue
             ctx.extra["shapes"] += 1
-            for case in shape_cases(shape):
+            for case in shape_cases(shape, ctx.quick):
                 judge(ctx, rig, case)
     finally:
         rig.close()
